@@ -108,9 +108,15 @@ func DecodeSwapMetadata(memo string) (*PacketMetadata, error) {
 	}
 
 	nextString := ""
-	swap := d["swap"].(map[string]interface{})
+	swap, ok := d["swap"].(map[string]interface{})
+	if !ok {
+		return nil, fmt.Errorf("swap field in memo must be an object")
+	}
 	if swap["forward"] != nil {
-		forward := swap["forward"].(map[string]interface{})
+		forward, ok := swap["forward"].(map[string]interface{})
+		if !ok {
+			return nil, fmt.Errorf("forward field in memo must be an object")
+		}
 		if forward["next"] != nil {
 			next := forward["next"]
 			delete(forward, "next")
@@ -132,6 +138,9 @@ func DecodeSwapMetadata(memo string) (*PacketMetadata, error) {
 	err = jsonpb.Unmarshal(strings.NewReader(memo), m)
 	if err != nil {
 		return nil, err
+	}
+	if m.Swap == nil {
+		return nil, fmt.Errorf("no swap filed in memo")
 	}
 	if m.Swap.Forward != nil {
 		m.Swap.Forward.Next = nextString
